@@ -37,6 +37,7 @@ var redirectTable = map[string]string{
 	"os.Mkdir":                       "ModelOsMkdir",
 	"os.Create":                      "ModelOsCreate",
 	"os.Open":                        "ModelOsOpen",
+	"os.OpenFile":                    "ModelOsOpenFile",
 	"os.Remove":                      "ModelOsRemove",
 	"os.RemoveAll":                   "ModelOsRemoveAll",
 	"os.Rename":                      "ModelOsRename",
